@@ -203,6 +203,7 @@ Definition justified_writers : list writer := [
   mkWr "engine.eventHandler" Wr true REngine "run" [];
   mkWr "engine.eventLoops" Wr true ROut "NewClient" [];
   mkWr "engine.eventLoops" Wr true REngine "run" [];
+  mkWr "engine.inShutdown" AWr false REngine "Client.Start" [];
   mkWr "engine.inShutdown" AWr false REngine "Client.Stop" [];
   mkWr "engine.inShutdown" AWr false REngine "engine.stop" [];
   mkWr "engine.ingress" Wr false REngine "engine.activateReactors" [];
